@@ -587,3 +587,47 @@ func AtRefined(instr ssa.Instruction, base Cuts) []Fact {
 	}
 	return dedup(all)
 }
+
+// DNF expands a boolean condition whose value is built from phis (switch-case and assignment
+// forms of && / ||) into a disjunction of conjunctions of facts: each disjunct corresponds to one
+// way control can have flowed through the phi network to produce `pol`, and carries the must-hold
+// facts of the predecessor edge it came through.
+func DNF(cond ssa.Value, pol bool) [][]Fact {
+	return dnf(cond, pol, nil, 0)
+}
+
+func dnf(cond ssa.Value, pol bool, at *ssa.BasicBlock, depth int) [][]Fact {
+	if depth > 8 {
+		return [][]Fact{{{Cond: cond, Pol: pol, Atom: Atom(cond, pol), If: at}}}
+	}
+	switch x := cond.(type) {
+	case *ssa.UnOp:
+		if x.Op == token.NOT {
+			return dnf(x.X, !pol, at, depth+1)
+		}
+	case *ssa.Phi:
+		var out [][]Fact
+		for i, e := range x.Edges {
+			pred := x.Block().Preds[i]
+			ei := 0
+			for k, s := range pred.Succs {
+				if s == x.Block() {
+					ei = k
+				}
+			}
+			edgeFacts := AtEdge(pred, ei, nil)
+			if c, ok := isBoolConst(e); ok {
+				if c != pol {
+					continue
+				}
+				out = append(out, append([]Fact{}, edgeFacts...))
+				continue
+			}
+			for _, conj := range dnf(e, pol, pred, depth+1) {
+				out = append(out, append(append([]Fact{}, conj...), edgeFacts...))
+			}
+		}
+		return out
+	}
+	return [][]Fact{{{Cond: cond, Pol: pol, Atom: Atom(cond, pol), If: at}}}
+}
